@@ -13,6 +13,8 @@ PLAN = [  # (finding id, property, mutant name in mutants/<PID>.json)
     ("KF-D10", "C05", "revert-D10-stopoffer-ignored-unwatched"),
     ("KF-D3", "C10", "revert-D3-pending-answer"), ("KF-D4", "C10", "revert-D4-stopped-answers"), ("KF-D5", "C10", "revert-D5-double-stop"),
     ("KF-D4", "C12", "revert-D4-stopped-answers"),
+    ("KF-D11", "C10", "revert-D11-flush-before-stopoffer"), ("KF-D11", "C04", "revert-D11-flush-before-stopoffer"),
+    ("KF-D2", "C04", "revert-D2-subscribe-sync"),
 ]
 child = r'''
 import json, sys
